@@ -208,7 +208,7 @@ def line_end(rng):
         return '\n'
     s = ''.join(rng.choice(' \t') for _ in range(rng.choice([0, 0, 1, 3])))
     if rng.random() < 0.3:
-        s += '#' + rng.choice(['', ' comment', ' length x = 5', '[', ')'])
+        s += '#' + rng.choice(['', ' comment', ' length x = 5', '[', ')', ' x\x0cy(', ' k\x0bl = 5', ' u\u2028v ]', ' \x85 z', ' q\x1cr = ['])
     nl = rng.choice(['\n', '\r\n'])
     s += nl
     for _ in range(rng.choice([0, 0, 0, 1, 2])):
